@@ -127,6 +127,15 @@ def gen_c01(tier, seed):
         scens.append({"id": sid("C01", "big", i), "props": ["C01"], "mode": "big", "tags": ["big"],
                       "steps": [{"op": "tree", "tree": cvlib.big_tree(rng)}, bk(rng.choice(cvlib.BIG_SETTINGS)), {"op": "restore", "band": 0},
                                 {"op": "validate", "quick": False}]})
+    # many entries: more files, hunks and blocks than any batch, window or cache in the program
+    for i in range(2 if tier == "quick" else 12):
+        nfiles = rng.choice([130, 210, 300])
+        t = [node("/", "Dir"), node("/d", "Dir")]
+        for j in range(nfiles):
+            t.append(node(("/d" if j % 3 == 0 else "") + "/f%03d" % j, "File", bytes([(j % 250) + 1, (j // 250) + 1]) * (j % 3), mt=(1600003000 + j, j % 2)))
+        scens.append({"id": sid("C01", "many", i), "props": ["C01"], "mode": "clean", "tags": ["many"],
+                      "steps": [{"op": "tree", "tree": t}, bk(rng.choice([{"H": 1, "M": 1000, "S": 0}, {"H": 7, "M": 3, "S": 2}, {"H": 1000, "M": 1000, "S": 0}])),
+                                {"op": "restore", "band": 0}, {"op": "validate", "quick": False}]})
     # contents beyond toy scale that are prefixes / duplicates of one another
     for i in range(10 if tier == "quick" else 120):
         t = cvlib.prefix_family_tree(rng, dirs=rng.choice([("",), ("", "d", "d.x")]))
@@ -721,6 +730,16 @@ def gen_c05(tier, seed):
                 sw["verbs"] = ["read", "list_dir", "metadata"]
             steps.append(sw)
         scens.append({"id": sid("C05", kind, i), "props": ["C05"], "mode": "clean", "tags": [kind, fam], "steps": steps})
+    # many blocks: two versions of 120-200 one-block files sharing half of them, one version deleted
+    for i in range(2 if tier == "quick" else 10):
+        n = rng.choice([120, 160, 200])
+        t0 = [node("/", "Dir")] + [node("/f%03d" % j, "File", bytes([(j % 250) + 1, 1, (j // 250) + 1]), mt=(1600004000 + j, 0)) for j in range(n)]
+        t1 = [node("/", "Dir")] + [node("/f%03d" % j, "File", bytes([(j % 250) + 1, 1 if j % 2 else 2, (j // 250) + 1]), mt=(1600004000 + j + (0 if j % 2 else 500), 0)) for j in range(n)]
+        o = {"H": rng.choice([1000, 50]), "M": 1000, "S": 0}
+        steps = [{"op": "tree", "tree": t0}, bk(o), {"op": "tree", "tree": t1}, bk(o),
+                 {"op": "delete", "bands": [rng.choice([0, 1])], "dry": False}, {"op": "restore_all"}, {"op": "validate", "quick": False},
+                 {"op": "delete", "bands": [], "dry": False}, {"op": "restore_all"}]
+        scens.append({"id": sid("C05", "many", i), "props": ["C05"], "mode": "clean", "tags": ["plain", "many-blocks"], "steps": steps})
     return scens
 
 
